@@ -161,17 +161,42 @@ func process(repo string, p pkgSpec, o *out) error {
 		// API methods), the calls made through the receiver, in source order, with their
 		// argument text, plus the control skeleton around them
 		if glue[fd.Name.Name] && rname != "" {
-			var seq []string
+			// local variables are renamed $1, $2, … in order of first appearance, so that the
+			// skeleton does not depend on how a maintainer calls them
+			locals := map[string]string{}
+			type renamed struct {
+				id   *ast.Ident
+				orig string
+			}
+			var undo []renamed
+			ast.Inspect(fd, func(n ast.Node) bool {
+				if id, ok := n.(*ast.Ident); ok && id.Obj != nil && id.Obj.Kind == ast.Var && id.Name != rname && id.Name != "_" {
+					if pos := id.Obj.Pos(); pos >= fd.Pos() && pos <= fd.End() {
+						if _, seen := locals[id.Name]; !seen {
+							locals[id.Name] = fmt.Sprintf("$%d", len(locals)+1)
+						}
+						undo = append(undo, renamed{id, id.Name})
+					}
+				}
+				return true
+			})
+			for _, u := range undo { // (renamed only now: Obj.Pos() looks names up in the declaration)
+				u.id.Name = locals[u.orig]
+			}
+			rename := func(t string) string { return t }
+			var seq0 []string
+			seq := &seq0
+			_ = rename
 			ast.Inspect(fd.Body, func(n ast.Node) bool {
 				switch x := n.(type) {
 				case *ast.FuncLit:
-					seq = append(seq, "func{")
+					*seq = append(*seq, rename("func{"))
 				case *ast.ForStmt, *ast.RangeStmt:
-					seq = append(seq, "for")
+					*seq = append(*seq, rename("for"))
 				case *ast.IfStmt:
-					seq = append(seq, "if "+text(x.Cond))
+					*seq = append(*seq, rename("if "+text(x.Cond)))
 				case *ast.ReturnStmt:
-					seq = append(seq, "return")
+					*seq = append(*seq, rename("return"))
 				case *ast.CallExpr:
 					root := x.Fun
 					for {
@@ -182,18 +207,21 @@ func process(repo string, p pkgSpec, o *out) error {
 						break
 					}
 					if id, ok := root.(*ast.Ident); ok && (id.Name == rname || id.Name == "time") {
-						seq = append(seq, text(x))
+						*seq = append(*seq, rename(text(x)))
 					}
 				case *ast.SendStmt:
-					seq = append(seq, text(x))
+					*seq = append(*seq, rename(text(x)))
 				case *ast.UnaryExpr:
 					if x.Op == token.ARROW {
-						seq = append(seq, text(x))
+						*seq = append(*seq, rename(text(x)))
 					}
 				}
 				return true
 			})
-			o.callseq = append(o.callseq, fmt.Sprintf("(%s, %s, %s, %s)", lstr(p.key), lstr(rtyp), lstr(fd.Name.Name), llist(seq)))
+			o.callseq = append(o.callseq, fmt.Sprintf("(%s, %s, %s, %s)", lstr(p.key), lstr(rtyp), lstr(fd.Name.Name), llist(*seq)))
+			for _, u := range undo {
+				u.id.Name = u.orig
+			}
 		}
 
 		// spawns, defers, selects, ranges: walk with loop depth
